@@ -252,13 +252,21 @@ def split_guard(body, head_t):
     carried value is updated, None if the else-branches are not the unchanged head"""
     conds = []
     t = body
+
+    def neg(c):
+        if isinstance(c, Term) and c.op == "not" and len(c.args) == 1:
+            return c.args[0]
+        return T("not", c)
+
     while isinstance(t, Term) and t.op == "phi" and len(t.args) == 3:
         c, x, y = t.args
+        if isinstance(c, Term) and c.op == "loopctl" and len(c.args) == 2 and c.args[0] == "continue":
+            c = c.args[1]  # `if g: continue` leaves the carried value as it is exactly when g holds
         if y == head_t:
             conds.append(c)
             t = x
         elif x == head_t:
-            conds.append(T("not", c))
+            conds.append(neg(c))
             t = y
         else:
             break
